@@ -22,8 +22,8 @@ def run(ctx):
         mcs = [("MCRP_q1.cfg", "safety: n<=1 chunks, all faults, scripts<=2 + long, bound 1, pool, fd", True),
                ("MCRP_live.cfg", "liveness (termination under weak fairness), n<=1", False)]
     else:
-        mcs = [("MCRP_small.cfg", "safety: n<=2, scripts<=3 + long, bounds 1/2, pool", True),
-               ("MCRP_quick.cfg", "safety: n<=2, scripts<=2 + long, bounds 1/2, pool, fd", False),
+        mcs = [("MCRP_small.cfg", "safety: n<=2, scripts<=3 + long, bounds 1/2, pool", False),
+               ("MCRP_quick.cfg", "safety: n<=2, scripts<=2 + long, bounds 1/2, pool, fd", True),
                ("MCRP_liveT.cfg", "liveness (termination under weak fairness), n<=2", False)]
     _, mock, mockfd, pbf = rpipe.parallel(lambda: rpipe.design(ctx, mcs, workers_each=4),
                                           lambda: rpipe.export(ctx, "mock"), lambda: rpipe.export(ctx, "mockfd"),
